@@ -232,10 +232,19 @@ func allJournalsWithPaths(resolved *include.ResolvedJournal, currentPath string,
 		for path, journal := range resolved.Files {
 			result[path] = journal
 		}
-		if resolved.Primary != nil && currentPath != "" {
-			result[currentPath] = resolved.Primary
+		// The primary journal of a workspace is its root journal, not the
+		// document the request comes from.
+		primaryPath := resolved.PrimaryPath
+		if primaryPath == "" {
+			primaryPath = currentPath
 		}
-	} else if currentJournal != nil && currentPath != "" {
+		if resolved.Primary != nil && primaryPath != "" {
+			result[primaryPath] = resolved.Primary
+		}
+	}
+	// The requesting document always contributes its own current text, also
+	// when it is not part of the resolved tree.
+	if currentJournal != nil && currentPath != "" {
 		result[currentPath] = currentJournal
 	}
 
